@@ -556,10 +556,26 @@ def check_block_file_agreement(ctx, facts, rid="C12.5"):
         for r in regs:
             n += 1
             bad = None
+            # where the path handed over was READ from the allocator's record (the registration may use a copy taken earlier)
+            reads = []
+            if len(r.node["args"]) >= 1:
+                parg = r.node["args"][-1]
+                _src, _locs, trav = origins(b, parg, follow_all_calls=True)
+                for x in trav:
+                    nd = x.node
+                    if x.idx == "term":
+                        if re.search(r"Clone>?::clone$|::to_string$|::to_owned$", strip_generics(nd.get("callee") or "")) and nd.get("args") and ".file_path" in show(strip_refs(expr(b, nd["args"][0])), 8):
+                            reads.append(x)
+                    elif nd.get("k") == "assign" and nd["rv"]["k"] in ("use", "ref"):
+                        pl_ = op_place(nd["rv"]["op"]) if nd["rv"]["k"] == "use" else nd["rv"]["place"]
+                        if pl_ is not None and pl_["p"] and isinstance(pl_["p"][-1], dict) and pl_["p"][-1].get("n") == "file_path" and any(e == "*" for e in pl_["p"]):
+                            reads.append(x)
+            anchors = reads or [r]
             for a in aggs:
                 for s_ in stores:
-                    if (leads(r, s_) and leads(s_, a)) or (leads(a, s_) and leads(s_, r)):
-                        bad = bad or (s_, a)
+                    for r_ in anchors:
+                        if (leads(r_, s_) and leads(s_, a)) or (leads(a, s_) and leads(s_, r_)):
+                            bad = bad or (s_, a)
             if bad:
                 ctx.violate(rid, fn, "block-registered-with-another-file", b.relfile, r.line,
                             "%s is given the allocator's file_path at line %s, but the file_path is replaced (line %s, rollover to a new file) before the Block that is handed out is "
